@@ -22,14 +22,15 @@ from harness import c08 as C08
 from mirsym.oracle import Oracle, BIN
 
 
-def fresh_process_outputs(ctx, src, opts, n):
+def fresh_process_outputs(ctx, src, opts, n, include=None, extra_env=None):
     """real build in n fresh processes with different hash seeds (inherent), working directories and environments"""
     outs = []
     for i in range(n):
         d = tempfile.mkdtemp(prefix='purity', dir=os.path.join(VERIF, '.cache'))
         env = {'PATH': '/usr/bin:/bin', 'HOME': d, 'TMPDIR': d, 'LANG': ['C', 'en_US.UTF-8', 'tr_TR.UTF-8'][i % 3], 'RUST_BACKTRACE': str(i % 2),
                'TZ': ['UTC', 'Asia/Tokyo'][i % 2], 'VERIF_NOISE': 'x' * i}
-        p = subprocess.run([BIN], input=_json.dumps({'cmd': 'gen', 'wgsl': src, 'options': opts}) + '\n', capture_output=True, text=True, cwd=d, env=env)
+        env.update((extra_env or [{}])[i % len(extra_env or [{}])])
+        p = subprocess.run([BIN], input=_json.dumps({'cmd': 'gen', 'wgsl': src, 'options': opts, 'include': include}) + '\n', capture_output=True, text=True, cwd=d, env=env)
         outs.append(p.stdout)
         try:
             os.rmdir(d)
@@ -248,6 +249,12 @@ def native(ctx, srcs=None):
     rep, det = native_purity(ctx, srcs)
     if rep:
         ctx.report('C18/native', f'real build is not a function of its input: {det.get("first")}', det, True, det)
+    rep, det = native_environment(ctx)
+    ctx.sample({'native environment run': det})
+    if rep:
+        ctx.report('C18/environment', f'real build: the generated text depends on environment variables of the process: {det}', det, True, det)
+    else:
+        ctx.replayed_ok += 1
     rep, det = native_sequence(ctx)
     ctx.sample({'native sequence run': {k: v for k, v in det.items() if k != 'first_difference'}})
     if rep:
@@ -355,6 +362,23 @@ SEQ_SRCS = ['struct P { a: mat4x4<f32>, b: vec4<f32> }\n@group(0) @binding(0) va
             'struct V { @location(0) p: vec3<f32>, @location(1) n: vec3<f32> }\n@group(0) @binding(0) var<uniform> v: V;\n@vertex fn vs(i: V) -> @builtin(position) vec4<f32> { return vec4<f32>(i.p, 1.0); }\n']
 SEQ_OPTS = [{'derive_bytemuck_host_shareable': True}, {'derive_encase_host_shareable': True, 'matrix_vector_types': 'Glam'},
             {'derive_bytemuck_host_shareable': True, 'derive_bytemuck_vertex': True, 'derive_serde': True, 'matrix_vector_types': 'Nalgebra'}]
+
+
+BUILD_ENV_VARS = ['CARGO_MANIFEST_DIR', 'OUT_DIR', 'CARGO_TARGET_DIR', 'PWD', 'CARGO_PKG_NAME', 'CARGO_HOME', 'RUSTFLAGS', 'WGSL_TO_WGPU', 'TERM', 'NO_COLOR']
+
+
+def native_environment(ctx):
+    """real build, include variant with an absolute path: the text must not depend on build-related environment variables, whether they
+    are unset, name a directory that contains the include path, or name something else"""
+    src = open('/repo/wgsl_to_wgpu/src/data/fragment_simple.wgsl').read()
+    root = os.path.join(VERIF, '.cache', 'envroot')
+    include = os.path.join(root, 'shaders', 'a.wgsl')
+    envs = [{}] + [{v: root for v in BUILD_ENV_VARS}, {v: os.path.join(root, 'shaders') for v in BUILD_ENV_VARS}, {v: '/' for v in BUILD_ENV_VARS},
+                   {v: '1' for v in BUILD_ENV_VARS}]
+    outs = fresh_process_outputs(ctx, src, {}, len(envs), include=include, extra_env=envs)
+    outs_rel = fresh_process_outputs(ctx, src, {}, len(envs), include='shaders/a.wgsl', extra_env=envs)
+    det = {'include': include, 'environments': len(envs), 'distinct_outputs': len(set(outs)), 'distinct_outputs_relative_path': len(set(outs_rel))}
+    return len(set(outs)) > 1 or len(set(outs_rel)) > 1, det
 
 
 def native_sequence(ctx):
